@@ -39,6 +39,9 @@ Push(p) == /\ next <= MaxH /\ Len(arr) < MaxLive
            /\ pr' = [pr EXCEPT ![next] = p]
            /\ arr' = Up(pr', Append(arr, next), Len(arr))
            /\ next' = next + 1 /\ last' = R("Push", <<p>>, <<next>>)
+Repush(h) == /\ h >= 1 /\ h < next /\ h \notin Live /\ Len(arr) < MaxLive
+             /\ arr' = Up(pr, Append(arr, h), Len(arr))
+             /\ last' = R("Repush", <<h>>, <<>>) /\ UNCHANGED <<pr, next>>
 Pop == LET n == Len(arr) IN
        /\ IF n = 0 THEN arr' = arr /\ last' = R("Pop", <<>>, <<0, 0>>)
           ELSE IF n = 1 THEN arr' = <<>> /\ last' = R("Pop", <<>>, <<arr[1], pr[arr[1]]>>)
@@ -65,6 +68,7 @@ InitFrom(ps) == /\ next = 1 /\ arr = <<>>
 
 Next == \/ \E p \in Prios : Push(p)
         \/ Pop \/ Peek
+        \/ \E h \in 1..MaxH : Repush(h)
         \/ \E h \in 0..MaxH : Remove(h) \/ \E p \in Prios : Fix(h, p)
         \/ \E i \in {-1, Len(arr), Len(arr) + 1} : RemoveAt(i) \/ FixAt(i)
         \/ \E ps \in InitSeqs : InitFrom(ps)
@@ -76,6 +80,7 @@ HeapOrder == \A k \in 1..Len(arr) - 1 : ~Less(pr, At(arr, k), At(arr, (k - 1) \d
 NoDup == \A i, j \in 1..Len(arr) : i # j => arr[i] # arr[j]
 Abs == INSTANCE HandlePQ WITH live <- Live
 AbsNext == \/ last'.n = "Push" /\ Abs!Push(last'.a[1])
+           \/ last'.n = "Repush" /\ Abs!Repush(last'.a[1])
            \/ last'.n = "Pop" /\ Abs!Pop
            \/ last'.n = "Peek" /\ Abs!Peek
            \/ last'.n = "Remove" /\ Abs!Remove(last'.a[1])
